@@ -251,6 +251,172 @@ func (g *FG) everyIterationPasses(loop ast.Stmt, pred func(n ast.Node) bool) boo
 	return !found
 }
 
+// idlePathsInfeasible: every path from the start of the loop body back to the loop head that
+// passes no node satisfying pred takes a combination of branches that cannot occur together with
+// the loop condition.  Only tests over variables that nothing on such a path can change (written
+// in the loop by the pred nodes alone, or not at all) are used; the others are ignored, which can
+// only make a path look feasible.  Decided with the octagon; anything outside it says "no".
+func (g *FG) idlePathsInfeasible(info *types.Info, loop *ast.ForStmt, pred func(n ast.Node) bool) bool {
+	head, body, _ := g.loopBlocks(loop)
+	if body == nil || head == nil || body == head || loop.Cond == nil {
+		return false
+	}
+	var post *cfg.Block
+	for _, b := range g.G.Blocks {
+		if b.Stmt == ast.Stmt(loop) && b.Kind == cfg.KindForPost {
+			post = b
+		}
+	}
+	// variables written in the loop by something else than a pred node
+	unstable := map[types.Object]bool{}
+	inspectNoLit(loop.Body, func(x ast.Node) bool {
+		if st, ok := x.(ast.Stmt); ok && pred(st) {
+			return false
+		}
+		switch s := x.(type) {
+		case *ast.AssignStmt:
+			for _, l := range s.Lhs {
+				if o := identObj(info, l); o != nil {
+					unstable[o] = true
+				}
+			}
+		case *ast.IncDecStmt:
+			if o := identObj(info, s.X); o != nil {
+				unstable[o] = true
+			}
+		case *ast.RangeStmt:
+			for _, e := range []ast.Expr{s.Key, s.Value} {
+				if e != nil {
+					if o := identObj(info, e); o != nil {
+						unstable[o] = true
+					}
+				}
+			}
+		case *ast.UnaryExpr:
+			if s.Op == token.AND {
+				if o := identObj(info, s.X); o != nil {
+					unstable[o] = true
+				}
+			}
+		}
+		return true
+	})
+	for _, lit := range funcLitsIn(loop.Body) {
+		ast.Inspect(lit, func(x ast.Node) bool {
+			if id, ok := x.(*ast.Ident); ok {
+				if o := info.Uses[id]; o != nil {
+					unstable[o] = true
+				}
+			}
+			return true
+		})
+	}
+	usable := func(e ast.Expr) bool {
+		ok := true
+		ast.Inspect(e, func(x ast.Node) bool {
+			switch s := x.(type) {
+			case *ast.CallExpr:
+				if !isBuiltinCall(info, s, "len") && !info.Types[s.Fun].IsType() {
+					ok = false
+				}
+			case *ast.SelectorExpr, *ast.IndexExpr, *ast.StarExpr, *ast.FuncLit:
+				ok = false
+			case *ast.UnaryExpr:
+				if s.Op == token.ARROW {
+					ok = false
+				}
+			case *ast.Ident:
+				if v, isVar := info.Uses[s].(*types.Var); isVar && (unstable[v] || v.IsField() || v.Pkg() == nil || v.Parent() == v.Pkg().Scope()) {
+					ok = false
+				}
+			}
+			return ok
+		})
+		return ok
+	}
+	if !usable(loop.Cond) {
+		return false
+	}
+	env := &symEnv{info: info}
+	st := &symState{vars: map[string]Val{}}
+	cv := env.eval(st, loop.Cond)
+	if cv.B == nil || len(env.problems) > 0 {
+		return false
+	}
+	type edge struct {
+		cond ast.Expr
+		pol  bool
+	}
+	feasibleIdle, paths := false, 0
+	var walk func(b *cfg.Block, idx int, conds []edge, seen map[*cfg.Block]bool)
+	walk = func(b *cfg.Block, idx int, conds []edge, seen map[*cfg.Block]bool) {
+		if feasibleIdle || paths > 4096 {
+			return
+		}
+		for i := idx; i < len(b.Nodes); i++ {
+			if pred(b.Nodes[i]) {
+				return // this path steps
+			}
+		}
+		c := g.branchCond(b)
+		for si, s := range b.Succs {
+			next := conds
+			if c != nil && usable(c) {
+				next = append(append([]edge{}, conds...), edge{c, si == 0})
+			}
+			if s == head || (post != nil && s == post) {
+				// an idle round: can its branches occur together with the loop condition?
+				paths++
+				fs := []*F{cv.B}
+				for _, e := range next {
+					ev := env.eval(st, e.cond)
+					if ev.B == nil {
+						continue
+					}
+					if e.pol {
+						fs = append(fs, ev.B)
+					} else {
+						fs = append(fs, not(ev.B))
+					}
+				}
+				sat, decided := satF(env.base, and(fs...))
+				if sat || !decided || len(env.problems) > 0 {
+					feasibleIdle = true
+				}
+				continue
+			}
+			if seen[s] || len(s.Succs) == 0 && false {
+				continue
+			}
+			// blocks outside the loop (the done block, returns) end the path without an idle round
+			if !g.inLoopBody(loop, s) {
+				continue
+			}
+			seen2 := map[*cfg.Block]bool{}
+			for k := range seen {
+				seen2[k] = true
+			}
+			seen2[s] = true
+			walk(s, 0, next, seen2)
+		}
+	}
+	walk(body, 0, nil, map[*cfg.Block]bool{body: true})
+	return !feasibleIdle && paths > 0 && paths <= 4096
+}
+
+// inLoopBody: the block belongs to the statements of the loop body (by position).
+func (g *FG) inLoopBody(loop *ast.ForStmt, b *cfg.Block) bool {
+	if b.Stmt != nil {
+		return loop.Body.Pos() <= b.Stmt.Pos() && b.Stmt.End() <= loop.Body.End()
+	}
+	for _, n := range b.Nodes {
+		if !(loop.Body.Pos() <= n.Pos() && n.End() <= loop.Body.End()) {
+			return false
+		}
+	}
+	return true
+}
+
 // stmtOrCondContains: does CFG node n contain an AST node satisfying f (outside function literals)?
 func nodeHas(n ast.Node, f func(ast.Node) bool) bool {
 	found := false
@@ -437,7 +603,7 @@ func (lc *loopCtx) classify(loop ast.Stmt) loopVerdict {
 					return true
 				})
 				if plain {
-					return loopVerdict{Form: "LP-token", Detail: "the flag " + id.Name + " is also assigned a value that does not come from consuming input: the loop need not terminate"}
+					return loopVerdict{Form: "LP-token", Undec: true, Detail: "the flag " + id.Name + " is also assigned a computed value (a condition written out as a flag): the loop is a `for cond` in disguise, not classified"}
 				}
 				if passes {
 					return loopVerdict{Form: "LP-token", OK: true, Detail: "flag " + id.Name + " is re-assigned from a call on every path through the body (each true result consumed input; finiteness of the input is the callee's)"}
@@ -631,6 +797,14 @@ func (lc *loopCtx) classify(loop ast.Stmt) loopVerdict {
 				}
 			}
 		}
+		if g.idlePathsInfeasible(info, s, func(n ast.Node) bool {
+			if st, ok := n.(ast.Stmt); ok {
+				return stepOf(info, st, key, env)*dir > 0
+			}
+			return false
+		}) {
+			return loopVerdict{Form: "LP-while", OK: true, Detail: fmt.Sprintf("every round that does not step %s takes branches that cannot occur together with the loop condition", exprStr(xe))}
+		}
 		return loopVerdict{Form: "LP-while", Detail: fmt.Sprintf("a path through the body (for example an inner loop that runs zero times) returns to the loop head without stepping %s: the loop does not terminate", exprStr(xe))}
 	}
 	return loopVerdict{Form: "?", Undec: true, Detail: "unknown loop statement"}
@@ -797,6 +971,16 @@ func (lc *loopCtx) classifyBlock(s *ast.ForStmt) loopVerdict {
 		if is, ok := x.(*ast.IfStmt); ok {
 			if nodeHas(is.Cond, func(y ast.Node) bool { id, ok := y.(*ast.Ident); return ok && info.Uses[id] == okObj }) {
 				tested = true
+			}
+		}
+		// the same test written as a case of a tagless switch
+		if sw, ok := x.(*ast.SwitchStmt); ok && sw.Tag == nil {
+			for _, cl := range sw.Body.List {
+				for _, e := range cl.(*ast.CaseClause).List {
+					if nodeHas(e, func(y ast.Node) bool { id, ok := y.(*ast.Ident); return ok && info.Uses[id] == okObj }) {
+						tested = true
+					}
+				}
 			}
 		}
 		return true
